@@ -1,6 +1,7 @@
 import HC.Proto.H11
 import HC.Lib.H11MSend
 import HC.Stream.WsTotal
+import HC.Extracted.C04Sites
 /-!
 # H11Total — no library event makes an exception escape `H11Protocol`'s reader (lemmas for C04 `total_h1`)
 
@@ -28,7 +29,51 @@ inductive Escape where
   | wsHandshake (e : PyErr)        -- out of `WSStream.handle(Request)` (`Handshake.is_valid`)
   | wsHandle (e : PyErr)           -- out of `WSStream.handle(Data)` (`_handle_events`, `_send_wsproto_event`)
   | wsAnswer                       -- LocalProtocolError re-raised while `WSStream.handle(Data)` sends (the 400 for early data)
+  | headerDecode                   -- UnicodeDecodeError / ValueError out of a partial decode of client bytes in the reader's own glue
 deriving Repr, DecidableEq
+
+/-! ## client-controlled bytes turned into text by the reader's own glue
+
+`C04Sites.h11ReaderDecodes` (extracted on every run) lists every `.decode(…)` / `split_comma_header` / `int(…)` / base64 call in
+`_handle_events`, `_check_protocol`, `_create_stream` and `H2CProtocolRequiredError.__init__` with its codec, what it is applied to
+and what the enclosing `try`s catch.  A site is *total* when the codec is (latin-1 maps every byte), when the exception it raises is
+caught there, or when it decodes a request-line field / header name, which h11's grammar has already restricted to ASCII
+(`token`, `vchar+`, `HTTP/d.d`).  Any other site raises on a header value with a byte ≥ 0x80 — out of the connection handler. -/
+
+abbrev DecodeSite := String × String × String × String × List String
+def DecodeSite.fn (s : DecodeSite) : String := s.1
+def DecodeSite.cls (s : DecodeSite) : String := s.2.1
+def DecodeSite.header (s : DecodeSite) : String := s.2.2.1
+def DecodeSite.codec (s : DecodeSite) : String := s.2.2.2.1
+def DecodeSite.caught (s : DecodeSite) : List String := s.2.2.2.2
+
+def codecTotal (c : String) : Bool := c == "latin1" || c == "latin-1" || c == "iso-8859-1" || c == "iso8859-1" || c == "l1"
+def codecText (c : String) : Bool := c == "ascii" || c == "us-ascii" || c == "utf-8" || c == "utf8"
+/-- the class the partial function raises (binascii.Error is a ValueError) -/
+def raisedBy (c : String) : String := if c == "int" || c == "float" || c == "base64" then "ValueError" else "UnicodeDecodeError"
+def siteCaught (s : DecodeSite) : Bool :=
+  s.caught.any (fun c => ((HC.Extracted.C04Sites.classMro.lookup (raisedBy s.codec)).getD [raisedBy s.codec]).contains c)
+def fieldAscii (cls : String) : Bool := cls == "method" || cls == "target" || cls == "version" || cls == "headerName"
+def siteTotal (s : DecodeSite) : Bool := codecTotal s.codec || siteCaught s || (fieldAscii s.cls && codecText s.codec)
+
+/-- a value the (non-total) site is applied to makes it raise -/
+def valueBad (s : DecodeSite) (r : ReqEv) : Bool :=
+  if s.cls == "headerValue" then
+    r.headers.any (fun h => (s.header == "*" || Bytes.lower (Bytes.stripL1 h.1) == s.header.b) && !(codecText s.codec && Ws.isAscii h.2))
+  else true
+
+/-- some decode site of function `fn` raises on this request -/
+def decodeRaises (fn : String) (r : ReqEv) : Bool :=
+  HC.Extracted.C04Sites.h11ReaderDecodes.any (fun (s : DecodeSite) => s.fn == fn && !siteTotal s && valueBad s r)
+
+/-- every extracted decode site of the reader's glue is total (the obligation `C04.h1_decode_sites_total` discharges by `decide`) -/
+def decodeSitesTotal : Bool := HC.Extracted.C04Sites.h11ReaderDecodes.all siteTotal
+
+theorem decodeRaises_false (h : decodeSitesTotal = true) (fn : String) (r : ReqEv) : decodeRaises fn r = false := by
+  simp only [decodeRaises, List.any_eq_false]
+  intro s hs
+  have := List.all_eq_true.mp h s hs
+  simp [this]
 
 def errHeaders (cfg : Cfg) : Headers := [("content-length".b, "0".b), ("connection".b, "close".b)] ++ cfg.serverHeaders
 
@@ -62,7 +107,7 @@ def escapeBody (cfg : Cfg) (st : St) (e : LibEv) : Option Escape :=
   match e with
   | .protoError hint =>
     let st := { st with lib := H11M.recvError st.lib }
-    if st.cur.isSome && st.requestComplete then none
+    if errIgnored st then none
     else if st.lib.server == .idle || st.lib.server == .sendResponse then
       if (libSend st (.response hint (errHeaders cfg))).2.2 || (libSend (libSend st (.response hint (errHeaders cfg))).1 .eom).2.2
       then some .errorResponse else none
@@ -72,11 +117,14 @@ def escapeBody (cfg : Cfg) (st : St) (e : LibEv) : Option Escape :=
     | none => none
     | some lib' =>
       let st := { st with lib := lib', requestComplete := false }
+      if decodeRaises "H11Protocol._handle_events" r || decodeRaises "H11Protocol._check_protocol" r then some .headerDecode else
       match checkProtocol r with
       | .h2c =>
-        if (libSend st (.info 101 (cfg.serverHeaders ++ [("connection".b, "upgrade".b), ("upgrade".b, "h2c".b)]))).2.2 then some .switch101 else none
+        if (libSend st (.info 101 (cfg.serverHeaders ++ [("connection".b, "upgrade".b), ("upgrade".b, "h2c".b)]))).2.2 then some .switch101
+        else if decodeRaises "H2CProtocolRequiredError.__init__" r then some .headerDecode else none
       | .prior => none
       | .none =>
+        if decodeRaises "H11Protocol._create_stream" r then some .headerDecode else
         let ws := isWebsocketRequest r
         let sc := scopeOf cfg r ws
         if ws then
@@ -253,7 +301,9 @@ theorem none_classified (cfg : Cfg) (st : St) (g : Ws.Frag) (e : LibEv)
               split at h
               · rename_i e' he'
                 simp only [he']
-                rfl
+                split
+                · rfl
+                · split <;> rfl
               · simp at h
             · simp only [hw, Bool.false_eq_true, if_false] at h
               simp at h
